@@ -566,6 +566,9 @@ func genCase(t *rapid.T, inner string) Case {
 		}
 	}
 	c.Op = op
+	if c.Op.K == "chmod" && rapid.IntRange(0, 2).Draw(t, "special") == 0 {
+		c.Op.Perm |= rapid.SampledFrom(ops.SpecialBits).Draw(t, "specialbit") // set-uid / set-gid / sticky travel with a mode too
+	}
 	if inner == "mem" && rapid.IntRange(0, 3).Draw(t, "view") == 0 {
 		c.View = true
 	}
